@@ -153,8 +153,13 @@ func (s *Session) script(want func(*Oblig) bool, timeoutMs int, cvc bool) (strin
 			fmt.Fprintf(&b, "(assert %s)\n", ob.Reach)
 			if !ob.Cover {
 				fmt.Fprintf(&b, "(assert (not %s))\n", ob.Goal)
+			} else if !cvc {
+				b.WriteString("(set-option :timeout 1500)\n")
 			}
 			fmt.Fprintf(&b, "(echo \"@@ %d\")\n(check-sat)\n(pop 1)\n", len(order))
+			if ob.Cover && !cvc {
+				fmt.Fprintf(&b, "(set-option :timeout %d)\n", timeoutMs)
+			}
 			order = append(order, ob)
 		}
 		if !ob.Cover {
